@@ -13,8 +13,8 @@ import (
 
 var closeRows = map[string]string{
 	"each-once": "every wired closer is closed exactly once, whatever the other closers answer, and nothing else is closed",
-	"counted":   "when closers run in goroutines, the WaitGroup counter has been raised for a goroutine before it starts, is raised by exactly the number of goroutines started, and every goroutine lowers it exactly once",
-	"awaited":   "when closers run in goroutines, the closing routine waits on that WaitGroup after the last goroutine was started and before it returns",
+	"counted":   "when closers run in goroutines, every goroutine signals that it is finished exactly once: it lowers a WaitGroup counter that was raised for it before it started (raised by exactly the number of goroutines started), or it sends one token on a channel",
+	"awaited":   "when closers run in goroutines, the closing routine waits for all of them after the last one was started and before it returns: Wait on that WaitGroup, or one token received per goroutine",
 	"no-panic":  "the closing routine does not panic",
 }
 
@@ -169,6 +169,51 @@ func closeTable(c *core.Ctx, closeFn *ssa.Function) *closeTableResult {
 					waitAfter[strings.TrimPrefix(e, "wait@")] = i
 				}
 			}
+			// the other join: one token per goroutine on a channel
+			sends := map[string]int{}
+			tokenOK, d2 := true, 0
+			var inGoSends int
+			recvAfter := map[string]int{}
+			lastGo2 := -1
+			for i, e := range trace {
+				switch {
+				case e == "go{":
+					d2++
+					inGoSends = 0
+				case e == "}go":
+					d2--
+					lastGo2 = i
+					if inGoSends != 1 {
+						tokenOK = false
+					}
+				case strings.HasPrefix(e, "send@"):
+					if d2 > 0 {
+						inGoSends++
+						sends[strings.TrimPrefix(e, "send@")]++
+					}
+				case strings.HasPrefix(e, "recv@"):
+					if d2 == 0 && i > lastGo2 {
+						recvAfter[strings.TrimPrefix(e, "recv@")]++
+					}
+				}
+			}
+			if started > 0 && len(adds) == 0 && len(dones) == 0 && len(sends) == 1 {
+				res.rs.hit("counted")
+				var ch string
+				for k := range sends {
+					ch = k
+				}
+				if !tokenOK || sends[ch] != started {
+					res.rs.fail("counted", w+fmt.Sprintf(" (goroutines started=%d, tokens sent=%d)", started, sends[ch]))
+				}
+				res.rs.hit("awaited")
+				// every token is received by the parent after the last goroutine was started (under the sequential
+				// schedule all goroutines have finished by then; what matters is that none is left unreceived)
+				if recvAfter[ch] != started {
+					res.rs.fail("awaited", w+fmt.Sprintf(" (goroutines started=%d, tokens received after the last start=%d)", started, recvAfter[ch]))
+				}
+				return
+			}
 			if started > 0 {
 				res.rs.hit("counted")
 				var total int64
@@ -198,6 +243,9 @@ func closeTable(c *core.Ctx, closeFn *ssa.Function) *closeTableResult {
 			orc, args, bind := build()
 			ip := absint.New(orc)
 			ip.IsLog, ip.InScope, ip.GoInline, ip.Tape = core.IsLogCall, c.InScope, true, tape
+			ip.OnChan = func(op string, ch *absint.Chan) {
+				trace = append(trace, fmt.Sprintf("%s@%p", op, ch))
+			}
 			ip.OnGo = func(g *ssa.Go, enter bool) {
 				res.gos[g] = true
 				if enter {
